@@ -54,7 +54,7 @@ Proof. vm_compute. reflexivity. Qed.
 (* the persistent-queue size witness in wire form (replayed by harness/C19/exp_test.go "witness-PQ-size"):
    three gated Sends, the size gauge reads 2 *)
 Example pq_size_wire :
-  fst (snd (model_out (CExp [2;1;1;0;5;0;0;0;0;0;0;0;0;0] [] [(1,[1;1;1])] [] [] []))) = [2].
+  fst (snd (model_out (CExp [2;1;1;0;5;0;0;0;0;0;0;0;0;0] [] [(1,[1;1;1])] [] [] []))) = [2; 0].
 Proof. vm_compute. reflexivity. Qed.
 
 (* a pipeline history: a consumer that moves the data out, one that fails after dropping half *)
